@@ -554,6 +554,20 @@ func checkGraphEdgesOnlyForModuleInputs(p *core.Prog, r *core.Report, rule strin
 				return
 			}
 			c, neg := core.StripNot(ifi.Cond)
+			// type-switch form: `case *Module_Input_Map_:` / `case *Module_Input_Store_:`
+			if ex, isEx := c.(*ssa.Extract); isEx && ex.Index == 1 {
+				if ta, isTA := ex.Tuple.(*ssa.TypeAssert); isTA && ta.CommaOk {
+					tn := ta.AssertedType.String()
+					if strings.HasSuffix(tn, ".Module_Input_Map_") || strings.HasSuffix(tn, ".Module_Input_Store_") {
+						idx := 0
+						if neg {
+							idx = 1
+						}
+						modEdges = append(modEdges, core.Edge{From: ifi.Block(), Idx: idx})
+					}
+				}
+				return
+			}
 			bo, ok := c.(*ssa.BinOp)
 			if !ok || (bo.Op != token.EQL && bo.Op != token.NEQ) {
 				return
